@@ -6,20 +6,21 @@
 prop="$1"; name="${2:-$1}"; shift; [ $# -gt 0 ] && shift
 [ "$1" = "--" ] && shift
 wt="/tmp/${WT_PREFIX:-wt}_$prop"
-out="/verif/seeded/$name"
+VH="${VERIF_HOME:-/verif}"
+out="$VH/seeded/$name"
 mkdir -p "$out"
 cd "$wt" || exit 2
 git diff -- icontract > "$out/patch.diff"
 [ -s "$out/patch.diff" ] || { echo "no change in $wt"; exit 2; }
 cp "$wt/demo_$prop.py" "$out/demo.py" 2>/dev/null
 cp "$wt/NOTE.md" "$out/NOTE.md" 2>/dev/null
-base="$(/verif/tools/baseline.sh "$wt" | head -1)"
+base="$("$VH"/tools/baseline.sh "$wt" | head -1)"
 PYTHONPATH="$wt" /venv/bin/python "$wt/demo_$prop.py" > "$out/demo_with.log" 2>&1; with=$?
 git stash -q -- icontract
 PYTHONPATH="$wt" /venv/bin/python "$wt/demo_$prop.py" > "$out/demo_without.log" 2>&1; without=$?
 git stash pop -q
 echo "baseline: $base ; demo exit with change=$with without=$without"
-cd /verif
+cd "$VH"
 start=$(date +%s)
 VERIF_REPO="$wt" ./vf check "$prop" "$@" > "$out/check.log" 2>&1; rc=$?
 end=$(date +%s)
